@@ -109,10 +109,9 @@ Record expected := mkExp {
   x_exit : Z
 }.
 
-Definition expected_of (f : list Z) (args : list Z) (er0 : regs) (exit0 : Z) : expected :=
+(* the state after loading, given which of the special sections exist *)
+Definition expected_with (f : list Z) (args : list Z) (er0 : regs) (exit0 : Z) (got stk symt : option shdr) : expected :=
   let phs := ref_phdrs f in
-  let got := find_sec f n_got in
-  let stk := find_sec f n_stack in
   let ws := argv_words args in
   let blk := match stk with Some s => arg_block (argv_at phs s) ws | None => [] end in
   let blk_lo := match stk with Some s => argv_at phs s - DRAM_START | None => 0 end in
@@ -124,10 +123,13 @@ Definition expected_of (f : list Z) (args : list Z) (er0 : regs) (exit0 : Z) : e
   let r7 := match stk with
             | Some s => set_er (set_er (set_er r5 7 (stack_end phs s - 8)) 0 (Z.of_nat (length ws))) 1 (argv_at phs s)
             | None => r5 end in
-  let ex := match find_sec f n_symtab with
+  let ex := match symt with
             | Some sy => match exit_value f sy with Some v => BASE + v | None => exit0 end
             | None => exit0 end in
   mkExp dram r7 ex.
+
+Definition expected_of (f : list Z) (args : list Z) (er0 : regs) (exit0 : Z) : expected :=
+  expected_with f args er0 exit0 (find_sec f n_got) (find_sec f n_stack) (find_sec f n_symtab).
 
 (* indices at which the expected image can be non-zero (for printing it) *)
 Definition candidates (f : list Z) (args : list Z) : list (Z * Z) :=      (* (start index, length) *)
